@@ -718,7 +718,72 @@ def rule_e(ctx: Context, R: Reporter):
     R.floor("C12.e", "definitions of the returned weights", n, 3)
 
 
+def rule_h(ctx: Context, R: Reporter):
+    """C12.h  the public posterior() is a pass-through of the core's result: whatever wraps the posterior
+    function either returns its result untouched or applies one row selection to every component
+    (a filter applied to x / weights / logl but not to the optional blobs / log-weights breaks the
+    equal-length, row-by-row contract only for the option combinations that return them)."""
+    pf = posterior_fn(ctx)
+    n = 0
+    for fi in ctx.prog.functions.values():
+        if fi is pf:
+            continue
+        sites = [c for (c, tg) in ctx.cg.sites.get(fi.qualname, []) if any(t is pf for t in tg)]
+        if not sites:
+            continue
+        n += 1
+        flow = flow_of(fi.node)
+        call = sites[0]
+        cn = flow.node_containing(call)
+        st = cn.stmt if cn is not None else None
+        if isinstance(st, ast.Return) and st.value is call:
+            R.check("C12.h", "the facade returns the core's posterior tuple untouched", True, fi, st, key=f"passthrough:{fi.short}")
+            continue
+        if not (isinstance(st, ast.Assign) and st.value is call and len(st.targets) == 1):
+            raise AnalysisError(f"C12.h: {fi.short} consumes the posterior tuple in a form outside the rule's vocabulary (`{unparse(st)[:60] if st is not None else '?'}`)")
+        tgt = st.targets[0]
+        names = []
+        if isinstance(tgt, ast.Name):
+            names = [tgt.id]
+        elif isinstance(tgt, (ast.Tuple, ast.List)):
+            for e in tgt.elts:
+                e2 = e.value if isinstance(e, ast.Starred) else e
+                if not isinstance(e2, ast.Name):
+                    raise AnalysisError(f"C12.h: {fi.short}: unpacking target `{unparse(tgt)[:40]}` not understood")
+                names.append(e2.id)
+        # re-definitions of the unpacked components after the call
+        selected, other = {}, {}
+        for nd in flow.cfg.stmt_nodes():
+            if nd is cn:
+                continue
+            for d in flow.defs_at.get(nd.id, []):
+                if d.name not in names:
+                    continue
+                v = d.value
+                if isinstance(v, ast.Tuple) and d.path and len(d.path) == 1 and isinstance(d.path[0], int) and d.path[0] < len(v.elts):
+                    v = v.elts[d.path[0]]
+                if isinstance(v, ast.Subscript) and isinstance(v.value, ast.Name) and v.value.id == d.name:
+                    selected.setdefault(d.name, []).append((norm_text(v.slice), d.stmt))
+                else:
+                    other.setdefault(d.name, []).append(d.stmt)
+        if not selected and not other:
+            R.check("C12.h", "the facade returns the core's posterior tuple untouched", True, fi, st, key=f"passthrough:{fi.short}")
+            continue
+        if other:
+            raise AnalysisError(f"C12.h: {fi.short} re-binds {sorted(other)} after the posterior call in a form the rule cannot type")
+        idxs = {i for lst in selected.values() for (i, _) in lst}
+        missing = [nm for nm in names if nm not in selected]
+        ok = not missing and len(idxs) == 1
+        where = next(iter(selected.values()))[0][1]
+        R.check("C12.h", "a row selection in the facade is applied to every returned component", ok, fi, where,
+                msg=f"{fi.short}: the components {sorted(selected)} of the posterior tuple are re-selected with `[{sorted(idxs)[0]}]` but {missing or 'others'} "
+                    f"(the optional blobs / log-weights) are returned as they came: outputs of different length that no longer refer row by row to the same particles",
+                key=f"facade-partial-selection:{fi.short}")
+    R.floor("C12.h", "wrappers of the posterior function", n, 1)
+
+
 def run(ctx: Context, R: Reporter):
+    R.guard(rule_h, ctx, R)
     R.guard(rule_g, ctx, R)
     R.guard(rule_f, ctx, R)
     R.guard(rule_e, ctx, R)
@@ -746,6 +811,8 @@ def variants():
         Variant("c-logl-unresampled", "bad", _delete_nth(core, "SamplerCore.compute_posterior", "logl = logl[idx]", 1), ["C12.c"]),
         Variant("c-weights-not-reset", "bad", delete_stmt(core, "SamplerCore.compute_posterior", "weights = np.ones(len(idx)) / len(idx)"), ["C12.c"]),
         Variant("d-swap-return", "bad", replace_expr(core, "SamplerCore.compute_posterior", "(x, weights, logl)", "(x, logl, weights)"), ["C12.d"]),
+        Variant("h-facade-partial-filter", "bad", _facade_filter(False), ["C12.h"], quick=True),
+        Variant("h-benign-facade-bound-result", "benign", _facade_filter(True)),
         Variant("benign-rename-idx", "benign", alpha_rename(core, "SamplerCore.compute_posterior", "idx", "sel"), quick=True),
         Variant("benign-guard-demorgan", "benign", replace_expr(core, "SamplerCore._not_termination", "1.0 - beta >= 0.0001 or ess < getattr(self, 'n_total', 0)", "not (1.0 - beta < 0.0001 and ess >= getattr(self, 'n_total', 0))"), quick=True),
         Variant("benign-hoist-ntotal", "benign", replace_stmt(core, "SamplerCore._not_termination", "return 1.0 - beta >= 0.0001 or ess < getattr(self, 'n_total', 0)", "target = getattr(self, 'n_total', 0)\nreturn 1.0 - beta >= 0.0001 or ess < target")),
@@ -768,3 +835,21 @@ def _delete_nth(relpath, defpath, text, nth):
         return replace_in_body(node, pred, lambda st: [], first_only=True)
 
     return edit(relpath, defpath, fn)
+
+
+def _facade_filter(benign: bool):
+    from ..variants import edit
+
+    def fn(node, tree):
+        for i, st in enumerate(node.body):
+            if isinstance(st, ast.Return) and isinstance(st.value, ast.Call) and "compute_posterior" in ast.unparse(st.value.func):
+                call = ast.unparse(st.value)
+                if benign:
+                    new = ast.parse(f"out = {call}\nreturn out").body
+                else:
+                    new = ast.parse(f"x, weights, logl, *extra = {call}\nkeep = weights > 0.0\nx, weights, logl = x[keep], weights[keep], logl[keep]\nreturn (x, weights, logl, *extra)").body
+                node.body[i:i + 1] = new
+                return True
+        return False
+
+    return edit("tempest/sampler.py", "Sampler.posterior", fn)
